@@ -581,6 +581,11 @@ def run_sched(spec, ctx):
         else:
             ctx.ob(desc, r, sample=sample)
         reb = sorted(set(rebA) | set(rebB))
+        wr = sorted({f'{e[1]}[{e[2]}]' for e in evA + evB if e[0] == 'w'})
+        # induction premise for histories of any length: a call leaves every shared location as it found it, so the n-th call
+        # starts from the state of the first.  A benign memo breaks the premise without breaking the property: inconclusive, not a violation.
+        ctx.ob(f'{ca} | {cb}: no shared location is written or re-bound by a call (premise: histories of any length behave like the pairs explored)'
+               + ('' if not (wr or reb) else f' - written: {wr[:4]} re-bound: {reb[:4]}'), 'unsat' if not (wr or reb) else 'unknown', sample=sample)
         if reb:
             cands = [dict(cand_base, order=o, what='rebound') for o in coarse_orders(len(evA), len(evB))]
             H.mark_last(cands)
